@@ -11,6 +11,11 @@ def regenerate():
     rc, o = run(['python3', os.path.join(VERIF, 'translator', 'consts.py'), os.path.join(COQ, 'Generated', 'Consts.v')], timeout=120)
     out.append(o)
     if rc != 0: return False, '\n'.join(out)
+    gs = os.path.join(VERIF, 'translator', 'gadget_shape.py')
+    if os.path.exists(gs):
+        rc, o = run(['python3', gs, os.path.join(COQ, 'Generated', 'GadgetShape.v')], timeout=120)
+        out.append(o)
+        if rc != 0: return False, '\n'.join(out)
     tr = os.path.join(VERIF, 'translator', 'rs2v.py')
     if os.path.exists(tr):
         rc, o = run(['python3', tr, os.path.join(COQ, 'Generated')], timeout=300)
